@@ -164,6 +164,29 @@ theorem exprs_math_env (cfg : ScanCfg R) (c pre e post : List Nat)
   exact ⟨items', by simpa [exprs] using h1, by simpa using h2⟩
 
 
+theorem itemsOk_append (items extra : List LoopItem) (E : List EnvE) (h : ItemsOk items E) :
+    ItemsOk (items ++ extra) E := by
+  intro e he
+  have := h e he
+  have hlt : e.d.lv < items.length := by
+    rcases Nat.lt_or_ge e.d.lv items.length with h' | h'
+    · exact h'
+    · rw [List.getElem?_eq_none h'] at this; cases this
+  rw [List.getElem?_append_left hlt]; exact this
+
+theorem itemsOk_set (items : List LoopItem) (E : List EnvE) (lv : Nat) (it : LoopItem) (h : ItemsOk items E)
+    (hne : ∀ e ∈ E, e.d.lv ≠ lv) : ItemsOk (items.set lv it) E := by
+  intro e he
+  rw [List.getElem?_set_ne (Ne.symm (hne e he))]
+  exact h e he
+
+/-- sum of the per-item fuel needs -/
+def sumEnts (Nf : Doc → List Nat → Nat) : List (List Nat × Doc) → Nat
+  | [] => 0
+  | (k, v) :: r => Nf v k + sumEnts Nf r
+
+
+
 section
 variable [RealLike R]
 
@@ -586,6 +609,514 @@ theorem render_segs_more_env (cx : RCtx R) (cfg : ScanCfg R) (hg : cx.guardIndex
       · simpa [tagsOfD, nTags, Nat.add_assoc] using h5
 
 
+
+/-- `loopIter` over the entries of the collection, the body rendered by `hbody` -/
+theorem loopIter_gen (cx : RCtx R) (sub : List (Tag R)) (f : LoopFields) (set : Doc)
+    (Eo : Doc → List Nat → List Nat) (Nf : Doc → List Nat → Nat) (nb : Nat) (Inv : List LoopItem → Prop)
+    (hinv : ∀ items it, Inv items → Inv (items.set f.level it))
+    (hbody : ∀ (x : Doc) (key : List Nat) (st : RState) (g : Nat), Inv st.items →
+      st.items[f.level]? = some ⟨some x, key⟩ → Nf x key ≤ g →
+      ∃ st', render cx (g + nb) sub (f.off + f.contentOff) f.endOff st = .ok st' ∧ st'.out = st.out ++ Eo x key ∧
+        Inv st'.items ∧ f.level < st'.items.length) :
+    ∀ (n idx : Nat) (st : RState) (fuel : Nat), idx + n = (entsOf set).length → f.level < st.items.length →
+      Inv st.items → n + sumEnts Nf ((entsOf set).drop idx) + nb + 1 ≤ fuel →
+      ∃ st', loopIter cx fuel sub f set set.size idx st = .ok st' ∧
+        st'.out = st.out ++ outEnts Eo ((entsOf set).drop idx) ∧ Inv st'.items := by
+  intro n
+  induction n with
+  | zero =>
+    intro idx st fuel hn hl hI hf
+    obtain ⟨g, rfl⟩ : ∃ g, fuel = g + 1 := ⟨fuel - 1, by omega⟩
+    have : ¬ idx < set.size := by rw [← entsOf_length]; omega
+    refine ⟨st, by simp [loopIter, this], ?_, hI⟩
+    rw [List.drop_of_length_le (by omega)]; simp [outEnts]
+  | succ n ih =>
+    intro idx st fuel hn hl hI hf
+    obtain ⟨g, rfl⟩ : ∃ g, fuel = g + 1 := ⟨fuel - 1, by omega⟩
+    have hlt : idx < set.size := by rw [← entsOf_length]; omega
+    have hlt' : idx < (entsOf set).length := by omega
+    obtain ⟨it, hit⟩ : ∃ it, st.items[f.level]? = some it := ⟨st.items[f.level], List.getElem?_eq_getElem hl⟩
+    have hia : itemAt st f.level = .ok it := by simp [itemAt, hit]
+    have hdrop : (entsOf set).drop idx = (entsOf set)[idx] :: (entsOf set).drop (idx + 1) :=
+      List.drop_eq_getElem_cons hlt'
+    obtain ⟨hval, hkey⟩ := itemOf_ents set idx it hlt'
+    generalize hkv : (entsOf set)[idx] = kv at hval hkey
+    obtain ⟨k, v⟩ := kv
+    simp only at hval hkey
+    generalize hit0 : itemOf set idx it = it0 at hval hkey
+    have hget : (st.items.set f.level it0)[f.level]? = some it0 := by
+      simp [List.getElem?_set_self hl]
+    rw [hdrop, hkv] at hf ⊢
+    simp only [sumEnts] at hf
+    rw [loopIter_succ]
+    simp only [hlt, if_true, hia, bind, Except.bind, hit0]
+    cases hu : v.isUndefined
+    · simp only [hu, Bool.false_eq_true, if_false] at hval
+      have hk := hkey hu
+      have hitem : it0 = ⟨some v, k⟩ := by cases it0; simp_all
+      obtain ⟨st1, hr, ho, hI1, hl1⟩ := hbody v k { st with items := st.items.set f.level it0 } (g - nb)
+        (hinv _ _ hI) (by show (st.items.set f.level it0)[f.level]? = some ⟨some v, k⟩; rw [hget, hitem]) (by omega)
+      rw [show g - nb + nb = g by omega] at hr
+      simp only [hval, Option.isSome_some, if_true, hr]
+      obtain ⟨st', h1, h2, h3⟩ := ih (idx + 1) st1 g (by omega) hl1 hI1 (by omega)
+      refine ⟨st', h1, ?_, h3⟩
+      rw [h2, ho]; simp [outEnts, hu, List.append_assoc]
+    · simp only [hu, if_true] at hval
+      simp only [hval, Option.isSome_none, Bool.false_eq_true, if_false, pure, Except.pure]
+      obtain ⟨st', h1, h2, h3⟩ := ih (idx + 1) { st with items := st.items.set f.level it0 } g
+        (by omega) (by simp; exact hl) (hinv _ _ hI) (by omega)
+      refine ⟨st', h1, ?_, h3⟩
+      rw [h2]; simp [outEnts, hu]
+
+
+/-- the value name of a printed loop header stands at `pre.length + voOf S` -/
+theorem chainD_hdr (c pre S V rest : List Nat) (hc : c = pre ++ (LOOPW ++ (hdrOf S V ++ rest))) :
+    ∃ B Rr, c = B ++ (V ++ Rr) ∧ B.length = pre.length + voOf S := by
+  by_cases hSe : S = []
+  · subst hSe
+    refine ⟨pre ++ LOOPW ++ [32, 118, 97, 108, 117, 101, 61, 34], [34] ++ rest, ?_, ?_⟩
+    · rw [hc]; simp [hdrOf, List.append_assoc]
+    · simp [LOOPW, voOf]
+  · have hSi : S.isEmpty = false := by cases S <;> simp_all
+    refine ⟨pre ++ LOOPW ++ ([32, 115, 101, 116, 61, 34] ++ S ++ [34] ++ [32, 118, 97, 108, 117, 101, 61, 34]), [34] ++ rest, ?_, ?_⟩
+    · rw [hc]; simp [hdrOf, hSi, List.append_assoc]
+    · simp [LOOPW, voOf, hSi]; omega
+
+mutual
+def GT.pathV (rn : List Nat → Option (Num R)) : List (List Nat) → GT → Prop
+  | Vs, .segs l => ∀ s ∈ l, s.pathV rn Vs
+  | Vs, .ifc e body tail => (varsOkV rn Vs e 34 ∧ e.length < 65536) ∧ GTs.pathV rn Vs body ∧ GTail.pathV rn Vs tail
+  | Vs, .loop S V body => (S ≠ [] → PathOkV Vs S) ∧ GTs.pathV rn (V :: Vs) body
+def GTs.pathV (rn : List Nat → Option (Num R)) : List (List Nat) → GTs → Prop
+  | _, .nil => True
+  | Vs, .cons b r => GT.pathV rn Vs b ∧ GTs.pathV rn Vs r
+def GTail.pathV (rn : List Nat → Option (Num R)) : List (List Nat) → GTail → Prop
+  | _, .fin => True
+  | Vs, .els body => GTs.pathV rn Vs body
+  | Vs, .elif e body tail => (varsOkV rn Vs e 34 ∧ e.length < 65536) ∧ GTs.pathV rn Vs body ∧ GTail.pathV rn Vs tail
+end
+
+mutual
+def GT.caseV (rn : List Nat → Option (Num R)) : GT → Prop
+  | .segs _ => True
+  | .ifc e body tail => (tail = .fin ∨ exprOk rn e) ∧ GTs.caseV rn body ∧ GTail.caseV rn tail
+  | .loop _ _ body => GTs.caseV rn body
+def GTs.caseV (rn : List Nat → Option (Num R)) : GTs → Prop
+  | .nil => True
+  | .cons b r => GT.caseV rn b ∧ GTs.caseV rn r
+def GTail.caseV (rn : List Nat → Option (Num R)) : GTail → Prop
+  | .fin => True
+  | .els body => GTs.caseV rn body
+  | .elif e body tail => exprOk rn e ∧ GTs.caseV rn body ∧ GTail.caseV rn tail
+end
+
+mutual
+def rcostGT : GT → Nat
+  | .segs l => nTags l
+  | .ifc _ _ _ => 1
+  | .loop _ _ _ => 1
+def rcostGTs : GTs → Nat
+  | .nil => 0
+  | .cons b r => rcostGT b + rcostGTs r
+end
+
+/-- the collection a loop runs over under the bindings `sc` -/
+def collS (cx : RCtx R) (sc : List Binding) (S : List Nat) : Option Doc :=
+  if S.isEmpty then some cx.root else (resolve cx.root sc S).1
+
+mutual
+/-- what the document says a tree prints under the bindings `sc` -/
+def expGT (cx : RCtx R) : List Binding → GT → List Nat
+  | sc, .segs l => expSegsB cx sc l
+  | sc, .ifc e body tail => if hitOfS cx sc e = true then expGTs cx sc body else expGTail cx sc tail
+  | sc, .loop S V body => outEnts (fun x key => expGTs cx (⟨V, x, key⟩ :: sc) body) (entsO (collS cx sc S))
+def expGTs (cx : RCtx R) : List Binding → GTs → List Nat
+  | _, .nil => []
+  | sc, .cons b r => expGT cx sc b ++ expGTs cx sc r
+def expGTail (cx : RCtx R) : List Binding → GTail → List Nat
+  | _, .fin => []
+  | sc, .els body => expGTs cx sc body
+  | sc, .elif e body tail => if hitOfS cx sc e = true then expGTs cx sc body else expGTail cx sc tail
+end
+
+mutual
+/-- render fuel a tree needs under the bindings `sc` (depends on the value: one unit per loop item) -/
+def rneedGT (cx : RCtx R) : List Binding → GT → Nat
+  | _, .segs _ => 1
+  | sc, .ifc _ body tail => rneedGTs cx sc body + rcostGTs body + rneedGTail cx sc tail + 3
+  | sc, .loop S V body =>
+    (entsO (collS cx sc S)).length +
+      sumEnts (fun x key => rneedGTs cx (⟨V, x, key⟩ :: sc) body) (entsO (collS cx sc S)) + rcostGTs body + 3
+def rneedGTs (cx : RCtx R) : List Binding → GTs → Nat
+  | _, .nil => 1
+  | sc, .cons b r => rneedGT cx sc b + rneedGTs cx sc r
+def rneedGTail (cx : RCtx R) : List Binding → GTail → Nat
+  | _, .fin => 1
+  | sc, .els body => rneedGTs cx sc body + rcostGTs body + 1
+  | sc, .elif _ body tail => rneedGTs cx sc body + rcostGTs body + rneedGTail cx sc tail + 1
+end
+
+theorem rneedGTs_pos (cx : RCtx R) : ∀ (sc : List Binding) (bs : GTs), 1 ≤ rneedGTs cx sc bs
+  | _, .nil => by simp [rneedGTs]
+  | sc, .cons b r => by have := rneedGTs_pos cx sc r; simp only [rneedGTs]; omega
+
+theorem rneedGTail_pos (cx : RCtx R) (sc : List Binding) (t : GTail) : 1 ≤ rneedGTail cx sc t := by
+  cases t <;> simp [rneedGTail] <;> omega
+
+/-- from "render up to the end, then nothing more" to the final state -/
+theorem render_finishG (cx : RCtx R) (tags : List (Tag R)) (post X : List Nat) (Bl Eo : Nat) (st : RState)
+    (fuel rc : Nat) (E : List EnvE) (hf : 1 ≤ fuel)
+    (h : ∃ (B2 txt2 : List Nat) (st2 : RState), cx.content = B2 ++ (txt2 ++ post) ∧ (B2 ++ txt2).length = Eo ∧
+      st2.out ++ txt2 = st.out ++ X ∧ ItemsOk st2.items E ∧
+      render cx (fuel + rc) tags Bl Eo st = render cx fuel [] B2.length Eo st2) :
+    ∃ st', render cx (fuel + rc) tags Bl Eo st = .ok st' ∧ st'.out = st.out ++ X ∧ ItemsOk st'.items E := by
+  obtain ⟨B2, txt2, st2, h1, h2, h3, h4, h5⟩ := h
+  rw [h5]
+  obtain ⟨f, rfl⟩ : ∃ f, fuel = f + 1 := ⟨fuel - 1, by omega⟩
+  have hsl : slice cx.content B2.length Eo = .ok txt2 := by
+    rw [← h2, h1]; exact slice_from B2 txt2 post
+  refine ⟨emit st2 txt2, by simp only [render, hsl, bind, Except.bind], by simp only [emit]; exact h3, by simpa [emit] using h4⟩
+
+
+/-! ### rendering a tree -/
+
+mutual
+theorem render_gt (cx : RCtx R) (cfg : ScanCfg R) (hg : cx.guardIndexRead = true) (hrn : cfg.readNum = cx.readNum)
+    (hn32 : cx.content.length < 4294967296) :
+    ∀ (b : GT) (E : List EnvE) (dep : Nat) (more : List (Tag R)) (endO : Nat) (post B txt : List Nat) (st : RState)
+      (fuel : Nat),
+      cx.content = B ++ (txt ++ (printGT b ++ post)) → b.ok → b.pathV cfg.readNum (vsOf E) → b.caseV cfg.readNum →
+      ChainD cx.content (dOf E) → ItemsOk st.items E → dep ≤ (B ++ txt).length → (∀ e ∈ E, e.d.lv < dep) →
+      rneedGT cx (scOf E) b ≤ fuel →
+      ∃ (B2 txt2 : List Nat) (st2 : RState), cx.content = B2 ++ (txt2 ++ post) ∧
+        (B2 ++ txt2).length = (B ++ txt).length + (printGT b).length ∧
+        st2.out ++ txt2 = st.out ++ (txt ++ expGT cx (scOf E) b) ∧ ItemsOk st2.items E ∧
+        render cx (fuel + rcostGT b) (tagsGT cfg cx.content (dOf E) dep (B ++ txt).length b ++ more) B.length endO st =
+          render cx fuel more B2.length endO st2
+  | .segs l, E, dep, more, endO, post, B, txt, st, fuel, hc, hok, hpath, _, hD, hit, _, _, hf => by
+    simp only [printGT] at hc
+    simp only [GT.ok] at hok
+    simp only [GT.pathV] at hpath
+    simp only [rneedGT] at hf
+    obtain ⟨B2, txt2, st2, h1, h2, h3, h4, h5⟩ :=
+      render_segs_more_env cx cfg hg hrn more endO post E hD l B txt st fuel hc hpath hok hf hit
+    exact ⟨B2, txt2, st2, h1, by simpa [printGT] using h2, by simpa [expGT] using h3, by rw [h4]; exact hit,
+      by simpa [rcostGT, tagsGT] using h5⟩
+  | .ifc e body tail, E, dep, more, endO, post, B, txt, st, fuel, hc, hok, hpath, hcase, hD, hit, hdp, hlv, hf => by
+    simp only [GT.ok] at hok
+    obtain ⟨hq34, hbody, htail⟩ := hok
+    simp only [GT.pathV] at hpath
+    obtain ⟨⟨hvo, he16⟩, hpb, hpt⟩ := hpath
+    simp only [GT.caseV] at hcase
+    obtain ⟨hfirst, hcb, hct⟩ := hcase
+    have hpe : varsOkV cx.readNum (vsOf E) e 34 := hrn ▸ hvo
+    simp only [rneedGT] at hf
+    simp only [printGT] at hc
+    have htp := printGTail_pos tail
+    have hcq : cx.content = ((B ++ txt ++ [60, 105, 102, 32, 99, 97, 115, 101, 61]) ++ [34]) ++ (e ++ [34]) ++
+        ([62] ++ (printGTs body ++ printGTail tail ++ post)) := by
+      rw [hc]; simp [IFOPEN, List.append_assoc]
+    have hA : (B ++ txt ++ [60, 105, 102, 32, 99, 97, 115, 101, 61]).length + 1 = (B ++ txt).length + 10 := by
+      simp only [List.length_append, List.length_cons, List.length_nil]
+    have hite : ItemsOk (emit st txt).items E := by simpa [emit] using hit
+    obtain ⟨hemp, hh1, hh2⟩ := case_hit_env cx cfg hg hrn (emit st txt) _ e _ hcq E hD hite he16 hpe
+    rw [hA] at hemp hh1 hh2
+    have hsl : slice cx.content B.length (B ++ txt).length = .ok txt := by rw [hc]; exact slice_from B txt _
+    have hl2 : (B ++ txt ++ (IFOPEN ++ e ++ [34, 62])).length = (B ++ txt).length + 12 + e.length := by
+      simp [IFOPEN]; omega
+    have hlb : (printGT (.ifc e body tail)).length = 12 + e.length + (printGTs body).length + (printGTail tail).length := by
+      simp [printGT, IFOPEN]; omega
+    have hrt : ∃ st', renderTag cx fuel
+        (Tag.ifT (IfCase.mk (itemsAtC cfg cx.content (refsD (dOf E)) ((B ++ txt).length + 10) ((B ++ txt).length + 10 + e.length))
+            (tagsGTs cfg cx.content (dOf E) (dep + 1) ((B ++ txt).length + 12 + e.length) body) ((B ++ txt).length + 12 + e.length)
+            ((B ++ txt).length + 12 + e.length + (printGTs body).length) ::
+          casesG cfg cx.content (dOf E) (dep + 1) ((B ++ txt).length + 12 + e.length + (printGTs body).length) tail) (B ++ txt).length
+          ((B ++ txt).length + 12 + e.length + (printGTs body).length + (printGTail tail).length)) B.length st =
+        .ok (st', (B ++ txt).length + 12 + e.length + (printGTs body).length + (printGTail tail).length) ∧
+        st'.out = st.out ++ (txt ++ expGT cx (scOf E) (.ifc e body tail)) ∧ ItemsOk st'.items E := by
+      obtain ⟨F, rfl⟩ : ∃ F, fuel = F + 2 := ⟨fuel - 2, by omega⟩
+      simp only [renderTag, hsl, bind, Except.bind]
+      cases hie : (itemsAtC cfg cx.content (refsD (dOf E)) ((B ++ txt).length + 10) ((B ++ txt).length + 10 + e.length)).isEmpty with
+      | true =>
+        simp only [if_true]
+        have htf : tail = .fin := by
+          rcases hfirst with h | h
+          · exact h
+          · have := (one_case_env cx cfg hg hrn (emit st txt) _ e _ hcq E hD hite he16 hpe h).1
+            rw [hA] at this; rw [this] at hie; cases hie
+        have hhit : hitOfS cx (scOf E) e = false := hh1 hie
+        exact ⟨emit st txt, rfl, by simp [expGT, hhit, htf, expGTail, emit], hite⟩
+      | false =>
+        obtain ⟨v, hv, hvt⟩ := hh2 hie
+        simp only [Bool.false_eq_true, if_false]
+        rw [ifCases_cons cx F _ _ _ _ _ _ v hie hv]
+        have hvt' : (truth v == some true) = hitOfS cx (scOf E) e := hvt
+        rw [hvt']
+        cases hhit : hitOfS cx (scOf E) e with
+        | true =>
+          simp only [if_true, expGT, hhit]
+          have hc2 : cx.content = (B ++ txt ++ (IFOPEN ++ e ++ [34, 62])) ++ ([] ++ (printGTs body ++ (printGTail tail ++ post))) := by
+            rw [hc]; simp [List.append_assoc]
+          have hr := render_gts cx cfg hg hrn hn32 body E (dep + 1) [] ((B ++ txt).length + 12 + e.length + (printGTs body).length)
+            (printGTail tail ++ post) (B ++ txt ++ (IFOPEN ++ e ++ [34, 62])) [] (emit st txt) (F - rcostGTs body)
+            hc2 hbody hpb hcb hD hite (by simp only [List.append_nil, hl2]; omega)
+            (fun x hx => Nat.lt_succ_of_lt (hlv x hx)) (by omega)
+          simp only [List.append_nil, List.nil_append, hl2] at hr
+          obtain ⟨st', r1, r2, r3⟩ := render_finishG cx (tagsGTs cfg cx.content (dOf E) (dep + 1) ((B ++ txt).length + 12 + e.length) body)
+            (printGTail tail ++ post) (expGTs cx (scOf E) body) ((B ++ txt).length + 12 + e.length)
+            ((B ++ txt).length + 12 + e.length + (printGTs body).length) (emit st txt) (F - rcostGTs body) (rcostGTs body) E
+            (by have := rneedGTs_pos cx (scOf E) body; omega) hr
+          rw [show F - rcostGTs body + rcostGTs body = F by omega] at r1
+          exact ⟨st', by rw [r1], by rw [r2]; simp [emit, List.append_assoc], r3⟩
+        | false =>
+          simp only [Bool.false_eq_true, if_false, expGT, hhit]
+          have hc3 : cx.content = (B ++ txt ++ (IFOPEN ++ e ++ [34, 62]) ++ printGTs body) ++ (printGTail tail ++ post) := by
+            rw [hc]; simp [List.append_assoc]
+          have hl3 : (B ++ txt ++ (IFOPEN ++ e ++ [34, 62]) ++ printGTs body).length =
+              (B ++ txt).length + 12 + e.length + (printGTs body).length := by
+            rw [List.length_append, hl2]
+          obtain ⟨st', r1, r2, r3⟩ := render_gtail cx cfg hg hrn hn32 tail E (dep + 1)
+            (B ++ txt ++ (IFOPEN ++ e ++ [34, 62]) ++ printGTs body) post
+            (emit st txt) F hc3 htail hpt hct hD hite (by rw [hl3]; omega) (fun x hx => Nat.lt_succ_of_lt (hlv x hx)) (by omega)
+          rw [hl3] at r1
+          exact ⟨st', by rw [r1], by rw [r2]; simp [emit, List.append_assoc], r3⟩
+    obtain ⟨st', r1, r2, r3⟩ := hrt
+    refine ⟨B ++ txt ++ printGT (.ifc e body tail), [], st',
+      by rw [hc]; simp [printGT, List.append_assoc], by simp [List.length_append]; omega,
+      by simpa using r2, r3, ?_⟩
+    simp only [tagsGT, rcostGT, List.cons_append, List.nil_append, render, r1, bind, Except.bind]
+    congr 1
+    simp only [List.length_append, hlb]; omega
+  | .loop S V body, E, dep, more, endO, post, B, txt, st, fuel, hc, hok, hpath, hcase, hD, hit, hdp, hlv, hf => by
+    simp only [GT.ok] at hok
+    obtain ⟨hh, hbody⟩ := hok
+    simp only [GT.pathV] at hpath
+    obtain ⟨hSp, hpb⟩ := hpath
+    simp only [GT.caseV] at hcase
+    simp only [rneedGT] at hf
+    simp only [printGT] at hc
+    have hdep32 : dep < 4294967296 := by
+      have : (B ++ txt).length ≤ cx.content.length := by rw [hc]; simp
+      omega
+    have htr : trunc bits_LoopTag_Level dep = dep := by
+      simp only [trunc, show bits_LoopTag_Level = 32 by decide]
+      exact Nat.mod_eq_of_lt (by omega)
+    have hsl : slice cx.content B.length (B ++ txt).length = .ok txt := by rw [hc]; exact slice_from B txt _
+    have hite : ItemsOk (emit st txt).items E := by simpa [emit] using hit
+    have hlb : (printGT (.loop S V body)).length = 6 + (hdrOf S V).length + (printGTs body).length + 7 := by
+      simp [printGT, LOOPW, LOOPEND]; omega
+    -- the collection
+    have hset : (if (setOf (dOf E) (B ++ txt).length S).len ≠ 0 then getValue cx (emit st txt) (setOf (dOf E) (B ++ txt).length S)
+        else pure (some cx.root)) = .ok (collS cx (scOf E) S) := by
+      by_cases hSe : S = []
+      · subst hSe; simp [setOf, collS, pure, Except.pure]
+      · have hSi : S.isEmpty = false := by cases S <;> simp_all
+        have hSl : S.length ≠ 0 := by cases S <;> simp_all
+        have hc11 : cx.content = (B ++ txt ++ LH1) ++ (S ++ ([34] ++ ([32, 118, 97, 108, 117, 101, 61, 34] ++ V ++ [34] ++
+            ([62] ++ (printGTs body ++ LOOPEND)) ++ post))) := by
+          rw [hc]; simp [hdrOf, hSi, LH1, LOOPW, List.append_assoc]
+        have hl11 : (B ++ txt ++ LH1).length = (B ++ txt).length + 11 := by simp [LH1]; omega
+        have hgv := (getValue_env cx hg (emit st txt) _ _ S hc11 E (hSp hSe) hite).1
+        rw [hl11] at hgv
+        have hso : setOf (dOf E) (B ++ txt).length S = refD (dOf E) ((B ++ txt).length + 11) S := by
+          simp [setOf, hSi, refD]
+        rw [hso, refD_len]
+        simp only [hSl, ne_eq, not_false_eq_true, if_true, hgv, collS, hSi, Bool.false_eq_true, if_false]
+    have hrt : ∃ st', renderTag cx fuel
+        (.loop (tagsGTs cfg cx.content (⟨(B ++ txt).length + voOf S, V, trunc bits_LoopTag_Level dep⟩ :: dOf E) (dep + 1)
+            ((B ++ txt).length + 6 + (hdrOf S V).length) body)
+          { loopFG (dOf E) (B ++ txt).length (trunc bits_LoopTag_Level dep) S V with
+            endOff := (B ++ txt).length + 6 + (hdrOf S V).length + (printGTs body).length }) B.length st =
+        .ok (st', (B ++ txt).length + 6 + (hdrOf S V).length + (printGTs body).length + 7) ∧
+        st'.out = st.out ++ (txt ++ expGT cx (scOf E) (.loop S V body)) ∧ ItemsOk st'.items E := by
+      obtain ⟨g, rfl⟩ : ∃ g, fuel = g + 1 := ⟨fuel - 1, by omega⟩
+      have h7 : W1.loopSuffixLength = 7 := by decide
+      simp only [renderTag, loopFG, hsl, bind, Except.bind, hset, h7, htr]
+      cases hcoll : collS cx (scOf E) S with
+      | none =>
+        exact ⟨emit st txt, rfl, by simp [expGT, hcoll, entsO, outEnts, emit], hite⟩
+      | some set0 =>
+        simp only [not_true_eq_false, ne_eq, if_false, pure, Except.pure, show ¬ ((0 : Nat) > 1) by omega]
+        have hcb : cx.content = (B ++ txt ++ LOOPW ++ hdrOf S V ++ [62]) ++ ([] ++ (printGTs body ++ (LOOPEND ++ post))) := by
+          rw [hc]; simp [List.append_assoc]
+        have hlcb : (B ++ txt ++ LOOPW ++ hdrOf S V ++ [62]).length = (B ++ txt).length + 6 + (hdrOf S V).length := by
+          simp [LOOPW]; omega
+        obtain ⟨Bv, Rv, hcv, hBv⟩ := chainD_hdr cx.content (B ++ txt) S V ([62] ++ (printGTs body ++ LOOPEND) ++ post)
+          (by rw [hc]; simp [List.append_assoc])
+        have hbodyR : ∀ (x : Doc) (key : List Nat) (s1 : RState) (k : Nat), ItemsOk s1.items E →
+            s1.items[dep]? = some ⟨some x, key⟩ → rneedGTs cx (⟨V, x, key⟩ :: scOf E) body ≤ k →
+            ∃ st', render cx (k + rcostGTs body)
+              (tagsGTs cfg cx.content (⟨(B ++ txt).length + voOf S, V, dep⟩ :: dOf E) (dep + 1)
+                ((B ++ txt).length + 6 + (hdrOf S V).length) body)
+              ((B ++ txt).length + (6 + (hdrOf S V).length))
+              ((B ++ txt).length + 6 + (hdrOf S V).length + (printGTs body).length) s1 = .ok st' ∧
+              st'.out = s1.out ++ expGTs cx (⟨V, x, key⟩ :: scOf E) body ∧ ItemsOk st'.items E ∧ dep < st'.items.length := by
+          intro x key s1 k hI h1 hk
+          have hE' : ItemsOk s1.items (⟨⟨(B ++ txt).length + voOf S, V, dep⟩, x, key⟩ :: E) := by
+            intro e he
+            rcases List.mem_cons.mp he with h | h
+            · subst h; exact h1
+            · exact hI e h
+          have hD' : ChainD cx.content (dOf (⟨⟨(B ++ txt).length + voOf S, V, dep⟩, x, key⟩ :: E)) := by
+            intro d hd
+            simp only [dOf, List.map_cons, List.mem_cons] at hd
+            rcases hd with h | h
+            · subst h
+              exact ⟨⟨Bv, Rv, hcv, hBv⟩, fun y hy => ⟨(hh.v y hy).2.2, hh.v34 y hy⟩⟩
+            · exact hD d (by simpa [dOf] using h)
+          have hr := render_gts cx cfg hg hrn hn32 body (⟨⟨(B ++ txt).length + voOf S, V, dep⟩, x, key⟩ :: E) (dep + 1) []
+            ((B ++ txt).length + 6 + (hdrOf S V).length + (printGTs body).length) (LOOPEND ++ post)
+            (B ++ txt ++ LOOPW ++ hdrOf S V ++ [62]) [] s1 k hcb hbody (by simpa [vsOf] using hpb) hcase hD' hE'
+            (by simp only [List.append_nil, hlcb]; omega)
+            (by
+              intro e he
+              rcases List.mem_cons.mp he with h | h
+              · subst h; simp
+              · exact Nat.lt_succ_of_lt (hlv e h))
+            (by simpa [scOf] using hk)
+          simp only [List.append_nil, List.nil_append, hlcb] at hr
+          obtain ⟨st', r1, r2, r3⟩ := render_finishG cx _ (LOOPEND ++ post) _ ((B ++ txt).length + 6 + (hdrOf S V).length)
+            ((B ++ txt).length + 6 + (hdrOf S V).length + (printGTs body).length) s1 k (rcostGTs body) _
+            (by have := rneedGTs_pos cx (⟨V, x, key⟩ :: scOf E) body; omega) hr
+          refine ⟨st', ?_, by simpa [scOf] using r2, fun e he => r3 e (List.mem_cons_of_mem _ he), ?_⟩
+          · rw [show (B ++ txt).length + (6 + (hdrOf S V).length) = (B ++ txt).length + 6 + (hdrOf S V).length by omega]
+            simpa [dOf] using r1
+          · have := r3 _ (List.mem_cons_self ..)
+            simp only at this
+            rcases Nat.lt_or_ge dep st'.items.length with h | h
+            · exact h
+            · rw [List.getElem?_eq_none h] at this; cases this
+        obtain ⟨st', h1, h2, h3⟩ := loopIter_gen cx
+          (tagsGTs cfg cx.content (⟨(B ++ txt).length + voOf S, V, dep⟩ :: dOf E) (dep + 1)
+            ((B ++ txt).length + 6 + (hdrOf S V).length) body)
+          { set := setOf (dOf E) (B ++ txt).length S, off := (B ++ txt).length,
+            endOff := (B ++ txt).length + 6 + (hdrOf S V).length + (printGTs body).length,
+            contentOff := 6 + (hdrOf S V).length, valueOff := voOf S, valueLen := V.length, level := dep }
+          set0 (fun x key => expGTs cx (⟨V, x, key⟩ :: scOf E) body)
+          (fun x key => rneedGTs cx (⟨V, x, key⟩ :: scOf E) body) (rcostGTs body) (fun items => ItemsOk items E)
+          (fun items it hI => itemsOk_set items E dep it hI (fun e he => Nat.ne_of_lt (hlv e he)))
+          hbodyR (entsOf set0).length 0
+          ⟨(emit st txt).out, (emit st txt).items ++ List.replicate (dep + 1 - (emit st txt).items.length) ({} : LoopItem)⟩
+          g (by omega) (by simp; omega) (itemsOk_append _ _ E hite)
+          (by simp only [hcoll, entsO, List.drop_zero] at hf ⊢; omega)
+        refine ⟨st', ?_, ?_, h3⟩
+        · simp only [h1]
+        · rw [h2]; simp [expGT, hcoll, entsO, emit, List.append_assoc]
+    obtain ⟨st', r1, r2, r3⟩ := hrt
+    refine ⟨B ++ txt ++ printGT (.loop S V body), [], st',
+      by rw [hc]; simp [printGT, List.append_assoc], by simp [List.length_append]; omega,
+      by simpa using r2, r3, ?_⟩
+    simp only [tagsGT, rcostGT, List.cons_append, List.nil_append, render, r1, bind, Except.bind]
+    congr 1
+    simp only [List.length_append, hlb]; omega
+theorem render_gts (cx : RCtx R) (cfg : ScanCfg R) (hg : cx.guardIndexRead = true) (hrn : cfg.readNum = cx.readNum)
+    (hn32 : cx.content.length < 4294967296) :
+    ∀ (bs : GTs) (E : List EnvE) (dep : Nat) (more : List (Tag R)) (endO : Nat) (post B txt : List Nat) (st : RState)
+      (fuel : Nat),
+      cx.content = B ++ (txt ++ (printGTs bs ++ post)) → bs.ok → bs.pathV cfg.readNum (vsOf E) → bs.caseV cfg.readNum →
+      ChainD cx.content (dOf E) → ItemsOk st.items E → dep ≤ (B ++ txt).length → (∀ e ∈ E, e.d.lv < dep) →
+      rneedGTs cx (scOf E) bs ≤ fuel →
+      ∃ (B2 txt2 : List Nat) (st2 : RState), cx.content = B2 ++ (txt2 ++ post) ∧
+        (B2 ++ txt2).length = (B ++ txt).length + (printGTs bs).length ∧
+        st2.out ++ txt2 = st.out ++ (txt ++ expGTs cx (scOf E) bs) ∧ ItemsOk st2.items E ∧
+        render cx (fuel + rcostGTs bs) (tagsGTs cfg cx.content (dOf E) dep (B ++ txt).length bs ++ more) B.length endO st =
+          render cx fuel more B2.length endO st2
+  | .nil, E, dep, more, endO, post, B, txt, st, fuel, hc, _, _, _, _, hit, _, _, _ =>
+    ⟨B, txt, st, by simpa [printGTs] using hc, by simp [printGTs], by simp [expGTs], hit, by simp [tagsGTs, rcostGTs]⟩
+  | .cons b r, E, dep, more, endO, post, B, txt, st, fuel, hc, hok, hpath, hcase, hD, hit, hdp, hlv, hf => by
+    simp only [GTs.ok] at hok
+    simp only [GTs.pathV] at hpath
+    simp only [GTs.caseV] at hcase
+    simp only [rneedGTs] at hf
+    simp only [printGTs] at hc
+    have hp1 := rneedGTs_pos cx (scOf E) r
+    obtain ⟨B1, txt1, st1, g1, g2, g3, g4, g5⟩ := render_gt cx cfg hg hrn hn32 b E dep
+      (tagsGTs cfg cx.content (dOf E) dep ((B ++ txt).length + (printGT b).length) r ++ more) endO (printGTs r ++ post) B txt st
+      (fuel + rcostGTs r) (by rw [hc]; simp [List.append_assoc]) hok.1 hpath.1 hcase.1 hD hit hdp hlv (by omega)
+    obtain ⟨B2, txt2, st2, h1, h2, h3, h4, h5⟩ := render_gts cx cfg hg hrn hn32 r E dep more endO post B1 txt1 st1 fuel g1
+      hok.2 hpath.2 hcase.2 hD g4 (by omega) hlv (by omega)
+    refine ⟨B2, txt2, st2, h1, ?_, ?_, h4, ?_⟩
+    · rw [h2, g2]; simp [printGTs, List.length_append]; omega
+    · rw [h3, ← List.append_assoc, g3]; simp [expGTs, List.append_assoc]
+    · simp only [tagsGTs, rcostGTs, List.append_assoc]
+      rw [show fuel + (rcostGT b + rcostGTs r) = fuel + rcostGTs r + rcostGT b by omega, g5, ← g2, h5]
+theorem render_gtail (cx : RCtx R) (cfg : ScanCfg R) (hg : cx.guardIndexRead = true) (hrn : cfg.readNum = cx.readNum)
+    (hn32 : cx.content.length < 4294967296) :
+    ∀ (t : GTail) (E : List EnvE) (dep : Nat) (Pre post : List Nat) (st : RState) (fuel : Nat),
+      cx.content = Pre ++ (printGTail t ++ post) → t.ok → t.pathV cfg.readNum (vsOf E) → t.caseV cfg.readNum →
+      ChainD cx.content (dOf E) → ItemsOk st.items E → dep ≤ Pre.length → (∀ e ∈ E, e.d.lv < dep) →
+      rneedGTail cx (scOf E) t ≤ fuel →
+      ∃ st', ifCases cx fuel (casesG cfg cx.content (dOf E) dep Pre.length t) st = .ok st' ∧
+        st'.out = st.out ++ expGTail cx (scOf E) t ∧ ItemsOk st'.items E
+  | .fin, E, dep, Pre, post, st, fuel, hc, _, _, _, _, hit, _, _, hf => by
+    simp only [rneedGTail] at hf
+    obtain ⟨f, rfl⟩ : ∃ f, fuel = f + 1 := ⟨fuel - 1, by omega⟩
+    exact ⟨st, by simp only [casesG, ifCases], by simp [expGTail], hit⟩
+  | .els body, E, dep, Pre, post, st, fuel, hc, hok, hpath, hcase, hD, hit, hdp, hlv, hf => by
+    simp only [GTail.ok] at hok
+    simp only [GTail.pathV] at hpath
+    simp only [GTail.caseV] at hcase
+    simp only [rneedGTail] at hf
+    simp only [printGTail] at hc
+    obtain ⟨f, rfl⟩ : ∃ f, fuel = f + 1 := ⟨fuel - 1, by omega⟩
+    simp only [casesG, ifCases, List.isEmpty_nil, if_true, pure, Except.pure, bind, Except.bind, expGTail]
+    have hl : (Pre ++ ELSE).length = Pre.length + 8 := by simp [ELSE]
+    have hc2 : cx.content = (Pre ++ ELSE) ++ ([] ++ (printGTs body ++ (IFEND ++ post))) := by
+      rw [hc]; simp [List.append_assoc]
+    have hr := render_gts cx cfg hg hrn hn32 body E dep [] (Pre.length + 8 + (printGTs body).length) (IFEND ++ post)
+      (Pre ++ ELSE) [] st (f - rcostGTs body) hc2 hok hpath hcase hD hit (by simp only [List.append_nil, hl]; omega) hlv (by omega)
+    simp only [List.append_nil, List.nil_append, hl] at hr
+    obtain ⟨st', r1, r2, r3⟩ := render_finishG cx (tagsGTs cfg cx.content (dOf E) dep (Pre.length + 8) body) (IFEND ++ post)
+      (expGTs cx (scOf E) body) (Pre.length + 8) (Pre.length + 8 + (printGTs body).length) st (f - rcostGTs body)
+      (rcostGTs body) E (by have := rneedGTs_pos cx (scOf E) body; omega) hr
+    rw [show f - rcostGTs body + rcostGTs body = f by omega] at r1
+    exact ⟨st', r1, r2, r3⟩
+  | .elif e body tail, E, dep, Pre, post, st, fuel, hc, hok, hpath, hcase, hD, hit, hdp, hlv, hf => by
+    simp only [GTail.ok] at hok
+    obtain ⟨hq34, hbody, htail⟩ := hok
+    simp only [GTail.pathV] at hpath
+    obtain ⟨⟨hvo, he16⟩, hpb, hpt⟩ := hpath
+    simp only [GTail.caseV] at hcase
+    obtain ⟨hex, hcb, hct⟩ := hcase
+    have hpe : varsOkV cx.readNum (vsOf E) e 34 := hrn ▸ hvo
+    simp only [rneedGTail] at hf
+    simp only [printGTail] at hc
+    obtain ⟨f, rfl⟩ : ∃ f, fuel = f + 1 := ⟨fuel - 1, by omega⟩
+    have hcq : cx.content = ((Pre ++ [60, 101, 108, 115, 101, 105, 102, 32, 99, 97, 115, 101, 61]) ++ [34]) ++ (e ++ [34]) ++
+        ([32, 47, 62] ++ (printGTs body ++ printGTail tail ++ post)) := by
+      rw [hc]; simp [ELIF, ELIFEND, List.append_assoc]
+    have hA : (Pre ++ [60, 101, 108, 115, 101, 105, 102, 32, 99, 97, 115, 101, 61]).length + 1 = Pre.length + 14 := by simp
+    obtain ⟨hie, v, hv, hvt⟩ := one_case_env cx cfg hg hrn st _ e _ hcq E hD hit he16 hpe hex
+    rw [hA] at hie hv
+    simp only [casesG]
+    rw [ifCases_cons cx f _ _ _ _ _ _ v hie hv, hvt]
+    have hl4 : (Pre ++ (ELIF ++ e ++ ELIFEND)).length = Pre.length + 18 + e.length := by simp [ELIF, ELIFEND]; omega
+    cases hhit : hitOfS cx (scOf E) e with
+    | true =>
+      simp only [if_true, expGTail, hhit]
+      have hc2 : cx.content = (Pre ++ (ELIF ++ e ++ ELIFEND)) ++ ([] ++ (printGTs body ++ (printGTail tail ++ post))) := by
+        rw [hc]; simp [List.append_assoc]
+      have hr := render_gts cx cfg hg hrn hn32 body E dep [] (Pre.length + 18 + e.length + (printGTs body).length)
+        (printGTail tail ++ post) (Pre ++ (ELIF ++ e ++ ELIFEND)) [] st (f - rcostGTs body) hc2 hbody hpb hcb hD hit
+        (by simp only [List.append_nil, hl4]; omega) hlv (by omega)
+      simp only [List.append_nil, List.nil_append, hl4] at hr
+      obtain ⟨st', r1, r2, r3⟩ := render_finishG cx (tagsGTs cfg cx.content (dOf E) dep (Pre.length + 18 + e.length) body)
+        (printGTail tail ++ post) (expGTs cx (scOf E) body) (Pre.length + 18 + e.length)
+        (Pre.length + 18 + e.length + (printGTs body).length) st (f - rcostGTs body) (rcostGTs body) E
+        (by have := rneedGTs_pos cx (scOf E) body; omega) hr
+      rw [show f - rcostGTs body + rcostGTs body = f by omega] at r1
+      exact ⟨st', r1, r2, r3⟩
+    | false =>
+      simp only [Bool.false_eq_true, if_false, expGTail, hhit]
+      have hc3 : cx.content = (Pre ++ (ELIF ++ e ++ ELIFEND) ++ printGTs body) ++ (printGTail tail ++ post) := by
+        rw [hc]; simp [List.append_assoc]
+      have hl5 : (Pre ++ (ELIF ++ e ++ ELIFEND) ++ printGTs body).length = Pre.length + 18 + e.length + (printGTs body).length := by
+        rw [List.length_append, hl4]
+      have := render_gtail cx cfg hg hrn hn32 tail E dep (Pre ++ (ELIF ++ e ++ ELIFEND) ++ printGTs body) post st f hc3 htail
+        hpt hct hD hit (by rw [hl5]; omega) hlv (by omega)
+      rw [hl5] at this
+      exact this
+end
 
 end
 end Qentem.Tmpl
